@@ -121,6 +121,16 @@ BUILT = {
             'address. ACCEPT iff all constraints hold (then bytes = reference) else REJECT.',
             'Reference mc/refenc.py; relative targets kept inside GLOBAL.',
             'DESIGN.md 3/C12'),
+    'C13': ('exploration',
+            'exhaustive enumeration of deliberately ambiguous generated definitions x operand texts against a category-level matcher',
+            'Every ordered pair of one-slot variants whose operand set is any subset (size <=2, thorough 3) of 11 alternative kinds x 16 '
+            'operand texts x mnemonic case, two-slot variants over a reduced subset list with and without an explicitly listed '
+            'combination and a disallowed pair x pairs of 8 texts, and three-variant definitions; every variant has its own opcode '
+            'and every alternative its own code so the image names the choice; expected = first accepting variant by the stated '
+            'priority, or rejection.',
+            'Reference matcher in mc/props/c13.py over text categories known by construction. Sets with two numeric-like alternatives '
+            'are not generated (the statement does not order them). Fully unmatched statements are thinned to one instruction per group.',
+            'DESIGN.md 3/C13'),
 }
 
 NOT_BUILT_REASON = 'check not built yet (work in progress in this session); no claim made'
